@@ -86,13 +86,35 @@ def type_walk(F):
     return walk_adt, walk_tree, found, visited_adts, impls_by_trait
 
 
+def tree_of(F, root):
+    """a function, its closures (transitively) and the *new* helper functions they call (functions that did not exist when the
+    rules were written, e.g. a closure body extracted into a named function)"""
+    out, work = [], [root]
+    known = known_functions()
+    while work:
+        p = work.pop()
+        if p in out or p not in F.bodies:
+            continue
+        out.append(p)
+        b = F.bodies[p]
+        for q in sorted(F.bodies):
+            if q.startswith(p + "::{closure") and q not in out:
+                work.append(q)
+        for c in b.calls():
+            k = c.callee
+            if k and known and k in F.bodies and k not in known and "{closure" not in k:
+                work.append(k)
+    return [F.bodies[p] for p in out]
+
+
 def batch_bodies(F):
-    """run, run_batch_*, and all their closures (the code that runs on the worker pool)"""
+    """run, run_batch_*, their closures and new helpers (the code that runs on the worker pool)"""
     roots = [APP + "CompassApp::run", APP + "run_batch_with_responses", APP + "run_batch_without_responses"]
     out = []
-    for p, b in sorted(F.bodies.items()):
-        if any(p == r or p.startswith(r + "::{closure") for r in roots):
-            out.append(b)
+    for r in roots:
+        for b in tree_of(F, r):
+            if b not in out:
+                out.append(b)
     return out
 
 
@@ -148,7 +170,7 @@ def R1_inventory(ctx):
 def R2_cell_influence(ctx):
     """C06.R2 what the audited cells may influence"""
     F = ctx.F
-    ctx.rule("C06.R2", "progress-bar guards flow only into Bar::update whose result is discarded; a failed bar lock is skipped, never an error; the prediction cache stores exactly the raw rate a miss computes and returns (see C08.R2, run here)", floor=4)
+    ctx.rule("C06.R2", "progress-bar guards flow only into Bar::update whose result is discarded; a failed bar lock is skipped, never an error; the prediction cache stores exactly the raw rate a miss computes and returns (see C08.R2, run here)", floor=3)
     n = 0
     for b in batch_bodies(F):
         tm = Terms(b)
@@ -174,7 +196,7 @@ def R2_cell_influence(ctx):
             rt = tm.return_term()
             upd = [tm.call_term(u.term, u.bb) for u in uses if (u.callee or "").endswith("BarExt>::update")]
             ctx.check(not any(contains(rt, lambda s, u=u: s == u) for u in upd) and not contains(rt, lambda s: s == g), "%s:bar-result-dropped" % short_fn_name(b.path), "the result of the progress update / lock reaches the closure's return value", c.where(), detail="let _ = pb.update(1)")
-    ctx.check(n >= 3, "bar-sites", "expected the three progress-bar lock sites, found %d" % n, None)
+    ctx.check(n >= 2, "bar-sites", "expected the progress-bar lock sites of the input stage and of the search stage, found %d" % n, None)
     from props.C08 import R2_record
     R2_record(ctx)
 
@@ -335,8 +357,8 @@ def R4_conservation(ctx):
                 break
             recv, val = [unmut_all(nosite(deep_strip(x))) for x in pushes[0][2]]
             q = nosite(deep_strip(nx[0]))
-            mb = [x for x in subterms(recv) if x[0] == "call" and x[1] == OPS + "min_bin"]
-            okl = okl and val == q and recv[0] == "call" and recv[1].endswith("IndexMut<I>>::index_mut") and len(mb) >= 1 and contains(nx[0], lambda s: s[0] == "call" and s[1].endswith("::iter") and unmut(s[2][0]) == ("arg", 1))
+            # conservation only: the element goes into one bin of the bins vector; which bin is the balancing heuristic's business
+            okl = okl and val == q and recv[0] == "call" and recv[1].endswith("IndexMut<I>>::index_mut") and recv[2][0][0] == "call" and recv[2][0][1] == "std::vec::from_elem" and contains(nx[0], lambda s: s[0] == "call" and s[1].endswith("::iter") and unmut(s[2][0]) == ("arg", 1))
         for r in rows:
             if r.kind == "return":
                 exhausted = any(l_ == "None" for d_, l_, _ in r.conds if d_[0] == "discr")
@@ -352,33 +374,85 @@ def R4_conservation(ctx):
     oks = len(sizes) == 2 and all(nosite(deep_strip(ltm.operand(c.args[1], c.bb))) == ("arg", 2) for c in sizes)
     ctx.check(oks, "load-balancing:bins-sized-by-parallelism", "bin_totals and assignments are not both sized by `parallelism`", lbb.where(), detail="vec![..; parallelism] x2")
     # weight failure never aborts the batch
-    we = [c for c in lbb.calls() if (c.callee or "").endswith("get_query_weight_estimate")]
-    okw = len(we) == 1 and try_propagation(lbb, we[0], ltm)["kind"] != "propagated"
+    we = [c for c in lbb.calls_deep() if (c.callee or "").endswith("get_query_weight_estimate")]
+    okw = len(we) == 1
+    for c in we:
+        if isinstance(c, VirtualCallSite):
+            inner_kind = try_propagation(c.inner.body, c.inner)["kind"]
+            okw = okw and (inner_kind not in ("propagated", "returned") or try_propagation(lbb, c.via, ltm)["kind"] != "propagated")
+        else:
+            okw = okw and try_propagation(lbb, c, ltm)["kind"] != "propagated"
     ctx.check(okw, "load-balancing:ill-typed-weight-is-not-fatal", "a query whose weight estimate cannot be read aborts the whole batch", lbb.where(), detail=".ok().flatten().unwrap_or(default)")
-    # run_batch_*: one run_single_query per element
-    for fn, inner, qarg in (("run_batch_with_responses", "::{closure#0}::{closure#0}", 2), ("run_batch_without_responses", "::{closure#0}::{closure#0}", 3)):
+    # run_batch_*: one run_single_query per element (whatever the spelling: map/collect, fold, for loop, extracted helper)
+    for fn in ("run_batch_with_responses", "run_batch_without_responses"):
         fb = F.need(APP + fn)
         ftm = Terms(fb)
         pi = [c for c in fb.calls() if (c.callee or "").endswith("::par_iter")]
         ctx.check(len(pi) == 1 and unmut(nosite(deep_strip(ftm.operand(pi[0].args[0], pi[0].bb)))) == ("arg", 1), fn + ":all-batches", "the batches given are not all iterated", fb.where(), detail="load_balanced_inputs.par_iter()")
-        mid = F.need(APP + fn + "::{closure#0}")
-        mtm = Terms(mid)
-        it = [c for c in mid.calls() if (c.callee or "") == "std::slice::<impl [T]>::iter"]
-        ctx.check(len(it) == 1 and unmut(nosite(deep_strip(mtm.operand(it[0].args[0], it[0].bb)))) == ("arg", 2), fn + ":all-queries-of-a-batch", "the queries of a batch are not all iterated", mid.where(), detail="queries.iter()")
-        cb = F.need(APP + fn + inner)
-        ctm2 = Terms(cb)
-        rs = [c for c in cb.calls() if c.callee == APP + "run_single_query"]
-        wr = [c for c in cb.calls() if (c.callee or "").endswith("ResponseSink::write_response")]
-        okq = len(rs) == 1 and len(wr) == 1
+        T = tree_of(F, APP + fn)
+        its = []
+        for tb in T:
+            if tb is fb:
+                continue
+            ttm = Terms(tb)
+            for c in tb.calls():
+                if (c.callee or "") == "std::slice::<impl [T]>::iter":
+                    r0 = unmut(nosite(deep_strip(ttm.operand(c.args[0], c.bb))))
+                    if r0[0] == "arg":
+                        its.append(c)
+        ctx.check(len(its) == 1, fn + ":all-queries-of-a-batch", "the queries of a batch are not all iterated (found %d iterations over a batch)" % len(its), fb.where(), detail="queries.iter()")
+        runs = [(tb, c) for tb in T for c in tb.calls() if c.callee == APP + "run_single_query"]
+        okq = len(runs) == 1
+        why = "expected exactly one run_single_query site, found %d" % len(runs)
         if okq:
-            a = [nosite(deep_strip(ctm2.operand(x, rs[0].bb))) for x in rs[0].args]
-            resp = nosite(deep_strip(ctm2.call_term(rs[0].term, rs[0].bb)))
-            w = [nosite(deep_strip(ctm2.operand(x, wr[0].bb))) for x in wr[0].args]
-            okq = a[0] == ("arg", qarg) and unmut(w[1]) == resp and cb.dominates(rs[0].bb, wr[0].bb)
-            if fn == "run_batch_with_responses":
-                oks_ = [r for r in table(cb, max_paths=100000) if r.end == "return" and result_variant(r.ret) == "Ok"]
-                okq = okq and bool(oks_) and all(unmut(agg_payload(r.ret)) == resp for r in oks_)
-        ctx.check(okq, fn + ":one-run-per-query", "each element of a batch is not run exactly once through run_single_query with its response written%s" % (" and returned" if fn.endswith("with_responses") else ""), cb.where(), detail="run_single_query(q, ..) -> write_response(response)")
+            rb, rs = runs[0]
+            rtm = Terms(rb)
+            a0 = unmut(nosite(deep_strip(rtm.operand(rs.args[0], rs.bb))))
+            resp = nosite(deep_strip(rtm.call_term(rs.term, rs.bb)))
+            wr = [c for c in rb.calls() if (c.callee or "").endswith("ResponseSink::write_response")]
+            okq = len(wr) == 1 and unmut(nosite(deep_strip(rtm.operand(wr[0].args[1], wr[0].bb)))) == resp and rb.dominates(rs.bb, wr[0].bb)
+            why = "the response of run_single_query is not written to the sink right after it"
+
+            def element_ok(body, t):
+                """t is the element of the iteration over the batch: a closure parameter, or next() over queries.iter()"""
+                if t[0] == "arg" and "{closure" in body.path:
+                    return True
+                return t[0] == "call" and itm(t[1], "next") and contains(t, lambda q: q[0] == "call" and q[1] == "std::slice::<impl [T]>::iter")
+
+            if okq:
+                if "{closure" in rb.path or a0[0] == "call":
+                    okq = element_ok(rb, a0)
+                    why = "run_single_query is not applied to the element of the iteration"
+                    holder, htm, hresp = rb, rtm, resp
+                else:
+                    # extracted helper: its parameter must receive the element at its (single) call site in this tree
+                    callers = [(tb, c) for tb in T for c in tb.calls() if c.callee == rb.path]
+                    okq = a0[0] == "arg" and len(callers) == 1
+                    why = "the helper around run_single_query is not called exactly once per element"
+                    if okq:
+                        hb, hc = callers[0]
+                        htm = Terms(hb)
+                        with no_inline():
+                            htm2 = Terms(hb)
+                            actual = unmut(nosite(deep_strip(htm2.operand(hc.args[a0[1] - 1], hc.bb))))
+                            hresp = nosite(deep_strip(htm2.call_term(hc.term, hc.bb)))
+                        okq = element_ok(hb, actual)
+                        why = "the helper around run_single_query does not receive the element of the iteration"
+                        holder, htm = hb, htm2
+                        # the helper returns the response it wrote
+                        if fn == "run_batch_with_responses":
+                            oks_ = [r for r in table(rb, max_paths=100000) if r.end == "return" and result_variant(r.ret) == "Ok"]
+                            okq = okq and bool(oks_) and all(unmut(agg_payload(r.ret)) == resp for r in oks_)
+                if okq and fn == "run_batch_with_responses":
+                    # the response (of the closure / helper call) is returned or pushed into the collected vector
+                    with no_inline():
+                        h2 = Terms(holder)
+                        rt_ = h2.return_term()
+                        pushed = [c for c in holder.calls() if (c.callee or "").startswith("std::vec::Vec::<T, A>::push") and contains(h2.operand(c.args[1], c.bb), lambda q: nosite(deep_strip(q)) == hresp)]
+                        returned = contains(nosite(deep_strip(rt_)), lambda q: q == hresp)
+                    okq = bool(pushed) or returned
+                    why = "the response is neither returned nor pushed into the responses of the batch"
+        ctx.check(okq, fn + ":one-run-per-query", "each element of a batch is not run exactly once through run_single_query with its response written%s: %s" % (" and returned" if fn.endswith("with_responses") else "", why), fb.where(), detail="run_single_query(q, ..) -> write_response(response)")
     # run_single_query / apply_output_processing / create_initial_output: the same request
     b1 = F.need(APP + "run_single_query")
     rt = nosite(deep_strip(Terms(b1).return_term()))
@@ -564,15 +638,24 @@ def R5_error_discipline(ctx):
             continue
         ctx.check(key in allowed, "propagates:%s@%d" % (key.split("::")[-1], n), "run() propagates an Err of %s: a failure that is not on the audited batch-level list aborts the whole batch" % key, b.where(sbb), detail=allowed.get(key))
     ctx.check(n >= 9, "propagation-sites", "expected at least 9 `?` sites in run, found %d" % n, None)
-    # run_batch closures: the only `?` sources are run_single_query (always Ok) and write_response
+    # run_batch_*: inside the per-batch code the only `?` sources are run_single_query (always Ok), write_response (sink I/O) and
+    # new helpers of this tree (whose own `?` sources are checked the same way)
     for fn in ("run_batch_with_responses", "run_batch_without_responses"):
-        cb = F.need(APP + fn + "::{closure#0}::{closure#0}")
-        ctm = Terms(cb)
-        for sbb, dt, names, t in switches(cb, ctm):
-            if dt[0] == "discr" and dt[1][0] == "call" and dt[1][1].endswith("::branch"):
-                src = dt[1][2][0]
-                key = src[1] if src[0] == "call" else "?"
-                ctx.check(key in (APP + "run_single_query", "routee_compass::app::compass::response::response_sink::ResponseSink::write_response"), "%s:propagates:%s" % (fn, key.split("::")[-1]), "the per-query closure propagates an Err of %s" % key, cb.where(sbb), detail="run_single_query is always Ok; write_response = sink I/O")
+        T = tree_of(F, APP + fn)
+        names = {tb.path for tb in T}
+        for cb in T:
+            if cb.path == APP + fn:
+                continue
+            ctm = Terms(cb)
+            with no_inline():
+                ctm = Terms(cb)
+                sw = switches(cb, ctm)
+            for sbb, dt, names_, t in sw:
+                if dt[0] == "discr" and dt[1][0] == "call" and dt[1][1].endswith("::branch"):
+                    src = dt[1][2][0]
+                    key = src[1] if src[0] == "call" else "?"
+                    ok = key in (APP + "run_single_query", "routee_compass::app::compass::response::response_sink::ResponseSink::write_response") or key in names or key.startswith("std::iter::") or itm(key, "collect") or "Iterator" in key
+                    ctx.check(ok, "%s:propagates:%s" % (fn, key.split("::")[-1]), "the per-query code propagates an Err of %s" % key, cb.where(sbb), detail="run_single_query is always Ok; write_response = sink I/O")
 
 
 def R6_lock_graph(ctx):
